@@ -283,7 +283,12 @@ def run(rep, program: Program, tier: str) -> None:
         "a cotangent projection after a flow is treated as part of that (self-adjoint) constrained sub-step; the pairing itself is checked by C04-R4",
     ]
     runs = list(integrator_runs(program, tier))
-    rule_r1_r2(rep, program)
-    rule_r3(rep, program, runs)
-    rule_r4(rep, program, runs)
+    rep.isolate(rule_r1_r2, rep, program)
+    rep.isolate(rule_r3, rep, program, runs)
+    rep.isolate(rule_r4, rep, program, runs)
     rep.extra["integrator_instances_executed"] = len(runs)
+    # the derivative values a step reads are those of the integrator's own system: the state-level cache
+    # identifies the system object (shared with C09-R6)
+    from . import c09
+
+    rep.isolate(c09.rule_r6, rep, program, prop=PROP, rule="R5")
